@@ -4267,6 +4267,10 @@ fn attribute_name(name: &parser::AttributeName) -> (String, Option<String>) {
     }
 }
 
+/// Longest chain of entity references that is followed when a value is expanded; the expansion
+/// recurses once per link.
+const MAX_ENTITY_DEPTH: usize = 64;
+
 fn attr_value_from_name(name: &str, context: &Context) -> error::Result<String> {
     attr_value_from_name_in(name, context, &mut vec![])
 }
@@ -4280,6 +4284,12 @@ fn attr_value_from_name_in(
         return Err(error::Error::InvalidData(format!(
             "entity `{}` refers to itself",
             name
+        )));
+    }
+    if open.len() >= MAX_ENTITY_DEPTH {
+        return Err(error::Error::InvalidData(format!(
+            "entity `{}` is nested deeper than {} references",
+            name, MAX_ENTITY_DEPTH
         )));
     }
     open.push(name.to_string());
